@@ -163,4 +163,6 @@ MUTANTS = [
     ("shape-storage-global", ["C06"], S, "_shape_storage = threading.local()", "class _G: pass\n_shape_storage = _G()"),
     ("treepath-storage-global", ["C06"], S, "_treepath_storage = threading.local()", "class _G2: pass\n_treepath_storage = _G2()"),
     ("treeflatten-storage-global", ["C06"], S, "_treeflatten_storage = threading.local()", "class _G3: pass\n_treeflatten_storage = _G3()"),
+    ("magic-keeps-old-transformer", ["C11"], "_ipython_extension.py", "                    lambda x: not isinstance(x, JaxtypingTransformer),", "                    lambda x: True,"),
+    ("magic-prepends-transformer", ["C11"], "_ipython_extension.py", "            self.shell.ast_transformers.append(\n                JaxtypingTransformer(typechecker=Typechecker(typechecker))\n            )", "            self.shell.ast_transformers.insert(0, JaxtypingTransformer(typechecker=Typechecker('vf_spy.a')))"),
 ]
